@@ -12,7 +12,7 @@ def short(name, n=2):
     return '::'.join(parts[-n:])
 
 
-def describe(o, depth=0):
+def describe(o, depth=0, _guard=[0]):
     if o is None or depth > 8:
         return '?'
     k = o.kind
@@ -25,9 +25,9 @@ def describe(o, depth=0):
     if k == 'const':
         return 'const(%s)' % (o.value,)
     if k in ('ref', 'cast'):
-        return describe(o.base, depth + 1)
+        return describe(o.base, depth)
     if k == 'place':
-        return describe(o.base, depth + 1) + ''.join(p for p in o.proj if p != '*')
+        return describe(o.base, depth) + ''.join(p for p in o.proj if p != '*')
     if k in ('param', 'local'):
         return o.name
     if k == 'multi':
